@@ -33,6 +33,8 @@ pub enum FaultKind {
     ErrorThenOk,
     /// (load-configuration only) rpc-error severity error, then a warning, then <ok/>
     ErrorWarningThenOk,
+    /// a Junos-native <xnm:error> (Junos XML namespace, not an <rpc-error>) and nothing else
+    ForeignError,
 }
 
 impl FaultKind {
@@ -50,6 +52,7 @@ impl FaultKind {
             FaultKind::DelayedRpcError => "delayed-rpc-error",
             FaultKind::ErrorThenOk => "error-then-ok",
             FaultKind::ErrorWarningThenOk => "error-warning-then-ok",
+            FaultKind::ForeignError => "junos-xnm-error",
         }
     }
     /// does this fault mean "the step failed" (as opposed to a benign variation)?
@@ -60,7 +63,7 @@ impl FaultKind {
         [
             FaultKind::RpcError, FaultKind::WarningThenOk, FaultKind::NoPositive, FaultKind::NotXml, FaultKind::Truncated,
             FaultKind::WrongMessageId, FaultKind::CloseBefore, FaultKind::CloseAfter, FaultKind::StallThenClose,
-            FaultKind::DelayedRpcError, FaultKind::ErrorThenOk, FaultKind::ErrorWarningThenOk,
+            FaultKind::DelayedRpcError, FaultKind::ErrorThenOk, FaultKind::ErrorWarningThenOk, FaultKind::ForeignError,
         ]
         .into_iter()
         .find(|f| f.name() == s)
@@ -348,6 +351,10 @@ async fn serve(mut s: tokio_rustls::server::TlsStream<tokio::net::TcpStream>, se
                         "load-configuration" => reply(&idv, "<load-configuration-results></load-configuration-results>"),
                         _ => reply(&idv, ""),
                     }),
+                    FaultKind::ForeignError => Some(reply(
+                        &idv,
+                        "<xnm:error xmlns=\"http://xml.juniper.net/xnm/1.1/xnm\" xmlns:xnm=\"http://xml.juniper.net/xnm/1.1/xnm\"><source-daemon>mgd</source-daemon><message>injected: operation failed</message></xnm:error>",
+                    )),
                     FaultKind::NotXml => Some(format!("%%% not xml at all <<<{MARKER}").into_bytes()),
                     FaultKind::Truncated => {
                         let r = reply(&idv, &ok_body);
